@@ -1629,8 +1629,8 @@ def cdq(info):
         e = []
         e.append(ExprAff(edx[0:16],
                          ExprCond(get_op_msb(eax[:16]),
-                                  ExprInt16(0xffff),
-                                  ExprInt16(0x0))
+                                  ExprInt(uint16(0xffff)),
+                                  ExprInt(uint16(0x0)))
                          )
                  )
     return e
@@ -2330,11 +2330,8 @@ def cbw(info):
     return e
 
 def cwd(info):
-    # TODO: emulation is not valid
-    e = []
-    e.append(ExprAff(eax, edx))
-    e.append(ExprAff(edx, eax))
-    return e
+    # 99 with the other operand size: dx:ax = sign-extend(ax), or edx:eax = sign-extend(eax) in a 16-bit code segment
+    return cdq(info)
 
 # XXX TODO
 def aaa_stub(info, *arg):
